@@ -324,6 +324,7 @@ def run(tier):
     rule_R3(res, prog)
     rule_R6(res, prog)
     rule_R7(res, prog)
+    rule_R8(res, prog)
     return res.finish()
 
 
@@ -680,3 +681,35 @@ def rule_R7(res, prog):
                              file=fn.relfile, line=ln)
             res.instance(rid, "%s:%s %s(&%s, %s)" % (fn.name, ln, c["fn"], cv["n"], pp(a[k])[:40]), ok, finding=f_)
     res.floor(rid, 3)
+
+
+def rule_R8(res, prog):
+    """RSA signature value in range (RFC 8017 5.2.2 step 1: s must be in [0, n-1]): in psRsaCrypt every modular
+    exponentiation - public and private exponent alike - is reached only through the test that compares the imported
+    input with key->N (its `input larger than N` outcome leaves).  Without it s + N verifies like s: more than one
+    signature value per message."""
+    from sa import cfgutil as cu
+    rid = "C11.R8"
+    res.rule(rid, "psRsaCrypt: every modular exponentiation lies behind the input-versus-modulus range test")
+    fn = prog.fn("psRsaCrypt")
+
+    def is_range_test(x):
+        for m in walk(x):
+            if m.get("k") == "call" and m.get("fn") in ("pstm_cmp", "pstm_cmp_mag") and \
+                    any(q.get("k") == "mem" and q.get("f") == "N" for a in m.get("a", []) for q in walk(a)):
+                return True
+        return False
+    sites = cu.find_sites(fn, lambda n: n.get("k") == "call" and n.get("fn") in ("pstm_exptmod", "pstm_exptmod_ct", "pstm_mulmod"))
+    sites = [s_ for s_ in sites if s_[3].get("fn", "").startswith("pstm_exptmod")]
+    if not sites:
+        raise AnalysisBroken("C11.R8: no pstm_exptmod call in psRsaCrypt")
+    for (bid, idx, ln, call) in sites:
+        esc = cu.escapes(fn, (fn.entry, None), is_range_test, target_expr=lambda x, call=call: any(m is call for m in walk(x)))
+        f_ = None
+        if esc is not None:
+            f_ = Finding(PROP, rid, fn.name, "exponentiation without the range test",
+                         "%s:%s psRsaCrypt(): pstm_exptmod at line %s is reachable (via lines %s) without the comparison of the input with "
+                         "key->N: a signature value s + N (or any s >= N) is processed and verifies exactly like s" % (
+                             fn.relfile, ln, ln, [p_[1] for p_ in esc[-6:]]), file=fn.relfile, line=ln)
+        res.instance(rid, "psRsaCrypt:%s pstm_exptmod behind the input < N test" % ln, esc is None, finding=f_)
+    res.floor(rid, 2)
